@@ -252,6 +252,11 @@ def _families():
         for how in ('arg', 'env', 'main'):
             for flag_where in ('cli-flag', 'main-flag'):
                 yield ('named-before-flags', (b, how, flag_where))
+        # a feature flag keeps enabling its built-in feature when a feature list (that does not set the option) is named too
+        for how in ('arg', 'env', 'main'):
+            for flag_where in ('cli-flag', 'main-flag', 'gcp-flag'):
+                for lst in ('unrelated', 'empty'):
+                    yield ('flag-beside-list', (b, how, flag_where, lst))
     for combo in itertools.combinations(sorted(BUILTIN_SETS) + ['line-numbers', 'side-by-side', 'hyperlinks'], 2):
         yield ('determinism-flags', (combo, 'main'))
     for combo in itertools.combinations(sorted(BUILTIN_SETS) + ['line-numbers', 'side-by-side'], 3):
@@ -456,6 +461,30 @@ def build(family, params, defaults):
             return None   # [delta] features vs command-line flags: not a stated relation
         p.expected = S[0]
         p.why = 'features named by --features / DELTA_FEATURES come before feature flags'
+        p.nsources = 2
+    elif family == 'flag-beside-list':
+        b, how, flag_where, lst = params
+        o, bval = BUILTIN_SETS[b]
+        p = Placement(o)
+        other = 'hunk-label' if o != 'hunk-label' else 'right-arrow'
+        if lst == 'unrelated':
+            p.sections['f1'] = {other: 'zz'}
+            enable_list(p, ['f1'], how)
+        else:
+            if how == 'arg':
+                p.features_arg = ''
+            elif how == 'env':
+                p.env_features = ''
+            else:
+                p.main['features'] = ''
+        if flag_where == 'cli-flag':
+            p.cli_flags.append(b)
+        elif flag_where == 'main-flag':
+            p.main[b] = 'true'
+        else:
+            p.gcp[b] = 'true'
+        p.expected = bval
+        p.why = 'the built-in feature %s is enabled by its flag (%s); the feature list named by %s does not set the option' % (b, flag_where, how)
         p.nsources = 2
     elif family == 'determinism-flags':
         combo, where = params
